@@ -1,13 +1,12 @@
 (* C05 Spec: what it means for a value to be the exact image of a document at a type.
-   `agrees strict t d v`: v is the struct/value the property allows for document d at type t:
+   `agrees t d v`: v is the struct/value the property allows for document d at type t:
    - a present number is the SAME integer and fits the kind (no wrap, no truncation);
    - present bool/string/nested values are structurally equal (text coercions "1"->true, 5->"5" inside
      slices/maps/`string` fields are the integer/bool/string the text denotes);
    - absent + default: the parsed default; absent + optional: zero; absent + required: no value at all
      (only a struct none of whose fields is required may be filled from the empty object);
    - options= and range= are respected by every present value.
-   `strict = false` additionally tolerates the one deviation of the code from the text that was found:
-   an absent required map field becomes an empty map (see c05_required_map_refuted). *)
+   (the struct case is also available as `field_agrees`, see agrees_struct). *)
 From God Require Import Base.Prelude C05.Model.
 From Coq Require Import String Ascii.
 Local Open Scope Z_scope.
@@ -91,10 +90,7 @@ Definition value_in_options (o : fopts) (d : jv) : bool :=
 
 Definition has_key (k : string) (m : obj) : bool := match olookup k m with Some _ => true | None => false end.
 
-Section Agrees.
-  Variable strict : bool.
-
-  Fixpoint agrees (t : ty) (d : jv) (v : val) {struct t} : bool :=
+Fixpoint agrees (t : ty) (d : jv) (v : val) {struct t} : bool :=
     match t with
     | Prim k => leaf_agrees k d v
     | Ptr t' => match v with VPtr v' => agrees t' d v' | _ => false end
@@ -138,7 +134,6 @@ Section Agrees.
                         if o_optional o then val_eqb w (zero_val ft)
                         else match deref ft, unwrap ft w with
                              | Struct sub, Some w' => negb (ty_required (deref ft)) && agrees (deref ft) (JObj []) w'
-                             | Map _, Some (VMap []) => negb strict && negb (is_ptr ft)
                              | _, _ => false          (* required and absent: no value is acceptable *)
                              end
                     end
@@ -146,4 +141,34 @@ Section Agrees.
         | _, _ => false
         end
     end.
-End Agrees.
+
+(* one field of a struct against the object the struct is filled from (the body of the Struct case) *)
+Definition field_agrees (f : field) (m : obj) (w : val) : bool :=
+  let ft := f_ty f in let o := f_opts f in
+  if f_anon f then
+    negb (has_key (f_key f) m) &&
+    ((o_optional o && val_eqb w (zero_val ft)) ||
+     match unwrap ft w with Some w' => agrees (deref ft) (JObj m) w' | None => false end)
+  else
+    match olookup (f_key f) m with
+    | Some JNull => o_optional o && val_eqb w (zero_val ft)
+    | Some x => agrees ft x w && value_in_options o x && value_in_range o w
+    | None =>
+        match o_default o with
+        | Some dv =>
+            match deref ft, unwrap ft w with
+            | Prim KDur, Some (VInt z) => match parse_dur dv with Some z' => z =? z' | None => false end
+            | Prim k, Some w' => leaf_agrees k (JStr dv) w'
+            | _, _ => false
+            end
+        | None =>
+            if o_optional o then val_eqb w (zero_val ft)
+            else match deref ft, unwrap ft w with
+                 | Struct sub, Some w' => negb (ty_required (deref ft)) && agrees (deref ft) (JObj []) w'
+                 | _, _ => false
+                 end
+        end
+    end.
+
+Lemma agrees_struct fs m vs : agrees (Struct fs) (JObj m) (VStruct vs) = all2 (fun f w => field_agrees f m w) fs vs.
+Proof. reflexivity. Qed.
